@@ -54,7 +54,9 @@ func (d *durTrack) acceptable(db *DB, tag string) {
 
 // hC06: history with durability points (explicit Sync, or every write in
 // sync-after-write mode), power failure at a symbolic instant, recovery.
-func hC06(n, prefix, L, vlen, syncMode int, midOp bool) { hC06x(n, prefix, L, vlen, syncMode, midOp, false) }
+func hC06(n, prefix, L, vlen, syncMode int, midOp bool) {
+	hC06x(n, prefix, L, vlen, syncMode, midOp, false)
+}
 
 // afterRecovery: the session under test itself starts with a crash recovery
 func hC06x(n, prefix, L, vlen, syncMode int, midOp bool, afterRecovery bool) {
@@ -421,3 +423,77 @@ func H_C09_q()   { hC09(2, 2, 1, 2, 0, false) }
 func H_C09_sw()  { hC09(2, 2, 1, 2, 1, false) }
 func H_C09_mid() { hC09(2, 2, 1, 2, 0, true) }
 func H_C09_t()   { hC09(2, 2, 2, 2, 0, false) }
+
+// H_C06_csync: an explicit Sync lands at every lock-free point of a running
+// Compact (two threads, all schedules); from the moment Sync has returned, power
+// may fail immediately or at any later mutating file-system call of the
+// compaction. Everything written before that Sync - including records sitting
+// in a segment that compaction has already sealed and is busy copying - must
+// survive. case: prefix shape of C05 (which segment compaction picks, whether it
+// is the current one).
+func H_C06_csync() {
+	n := 3
+	vlen := 2
+	rec := 10 + 8 + vlen
+	prefixIdx := vCase() % 4
+	pfs := &powerFS{inner: fs.Mem, segsOnly: true}
+	opts := smallOpts(pfs, 2, rec)
+	opts.maxSegmentSize += uint32(c05extra[prefixIdx])
+	dir := "c06s"
+	db, err := Open(dir, opts)
+	vAssert(err == nil, "C06s.open")
+	if err != nil {
+		return
+	}
+	r := newRef(n, 8)
+	vConstrainHashes(db, r, 2, true)
+	d := &durTrack{n: n}
+	d.checkpoint(r)
+	for _, p := range c05prefixes[prefixIdx] {
+		var v []byte
+		if p[0] == 0 {
+			v = vBytes("val", vlen)
+		}
+		refApply(r, p[0], p[1], v)
+		d.note(p[0], p[1], v)
+		dbApply(&db, dir, nil, r, p[0], p[1], v, "C06s.prefix")
+	}
+	ops := []vOp{{op: 3}}
+	crashed := vRunCrashable(func() {
+		vConcurrentWithMaintenance(func() {
+			died := vRunCrashable(func() {
+				_, err := db.Compact()
+				vAssert(err == nil, "C06s.compact.err")
+			})
+			if died {
+				panic(vCrashSignal{})
+			}
+		}, ops, func(i int) {
+			vAssert(db.Sync() == nil, "C06s.sync.err")
+		}, func(i int) {
+			// Sync has returned: a durability point for everything written so far
+			d.checkpoint(r)
+			vCover("C06s.sync-returned")
+			pfs.armed = true
+			if vChoice("failnow", 2) == 1 {
+				pfs.failed = true
+				panic(vCrashSignal{})
+			}
+		})
+	})
+	if crashed {
+		vCover("C06s.power-failure-while-compaction-runs")
+	}
+	pfs.armed = false
+	pfs.powerFail()
+	opts2 := smallOpts(fs.Mem, 2, rec)
+	opts2.maxSegmentSize = opts.maxSegmentSize
+	db2, err := Open(dir, opts2)
+	vAssert(err == nil, "C06s.open-after-power-loss-succeeds")
+	if err != nil {
+		return
+	}
+	d.acceptable(db2, "C06s.after")
+	checkSelfConsistent(db2, r, "C06s.after")
+	vCover("C06s.done")
+}
